@@ -1,12 +1,11 @@
 CONSTANTS
-  RFiles <- MFiles
+  RFiles <- MListedNoSelf
   RTok <- MTok
   REnc = {"secret"}
   RSig = {"(signature)"}
   REmpty = {"empty"}
   RHetBet = FALSE
-  RUnlisted = {}
-SPECIFICATION CodeSpec
-INVARIANT NeverFails
-
+  RUnlisted <- MUnlisted
+SPECIFICATION NoLfSpec
+INVARIANT TargetEnumerable
 CHECK_DEADLOCK FALSE
